@@ -153,21 +153,35 @@ func (e *c02env) judgeGenuine(d *abs.Msg, err error, ev []mon.Event) {
 	}
 	icv := e.s.ICVLen()
 	bad := ""
-	if len(ev) != 4 {
-		bad = fmt.Sprintf("expected Reset, Write, Sum, Decrypt; got %d events", len(ev))
-	} else {
-		want := []struct{ o, op string }{{mac, "Reset"}, {mac, "Write"}, {mac, "Sum"}, {enc, "Decrypt"}}
-		for i, w := range want {
-			if ev[i].Obj != w.o || ev[i].Op != w.op {
-				bad = fmt.Sprintf("event %d is %s, expected %s.%s", i, ev[i], w.o, w.op)
-				break
+	// which objects, in which order, over which octets — not how many calls: only the SENDER's direction objects,
+	// exactly the ciphertext reaches the cipher, and only after a MAC (started with Reset) over the received octets
+	// up to the checksum has been computed
+	decAt, sumAt := -1, -1
+	for i, x := range ev {
+		if x.Obj != enc && x.Obj != mac {
+			bad = fmt.Sprintf("event %d uses %s; this receiver may only use %s and %s", i, x, enc, mac)
+			break
+		}
+		if x.Op == "Decrypt" && decAt < 0 {
+			decAt = i
+			if x.Hash != sha256.Sum256(e.p[32:len(e.p)-icv]) {
+				bad = "cipher did not receive exactly IV | ciphertext"
 			}
 		}
-		if bad == "" && ev[1].Hash != sha256.Sum256(e.p[:len(e.p)-icv]) {
-			bad = "MAC not computed over the received octets up to the checksum"
+		if x.Op == "Sum" && decAt < 0 {
+			sumAt = i
 		}
-		if bad == "" && ev[3].Hash != sha256.Sum256(e.p[32:len(e.p)-icv]) {
-			bad = "cipher did not receive exactly IV | ciphertext"
+		if x.Op == "Encrypt" {
+			bad = "Encrypt during unprotection"
+		}
+	}
+	if bad == "" {
+		if decAt < 0 {
+			bad = "no Decrypt although the message was accepted"
+		} else if sumAt < 0 {
+			bad = "Decrypt before any checksum was computed"
+		} else if data, clean, _ := mon.MACInput(ev[:sumAt+1], mac); !clean || !bytes.Equal(data, e.p[:len(e.p)-icv]) {
+			bad = "MAC not computed (from a Reset) over the received octets up to the checksum"
 		}
 	}
 	if bad != "" {
